@@ -807,6 +807,12 @@ impl FamState {
             ));
             host_fields.push((format!("n{k}"), Field::new(Ty::Named(idx, vec![]))));
         }
+        if self.neighbours >= 1 {
+            // two instantiations of a PRELUDE generic whose shapes the comparison would tell apart (K == V in one
+            // of them): types without a module path are not the de-duplication's business
+            host_fields.push(("k0".into(), Field::new(Ty::BTreeMap(b(U8), b(U8)))));
+            host_fields.push(("k1".into(), Field::new(Ty::BTreeMap(b(U8), b(U16)))));
+        }
         let host = defs.len();
         defs.push(Def::strukt(&["m", "h"], "Host", &[], Fields::Named(host_fields)));
         let mut roots = vec![];
